@@ -16,7 +16,7 @@ CHECKS = {
              "is never re-pointed and a clash mints an unbound prefix (c03b_prefix_stable, c03b_clash_fresh; termination/freshness of "
              "_get_unused_prefix by pigeonhole), (c) print-and-resolve returns the same name for every owned well-formed name after any "
              "later history keeping the default (c03c_single_scope) and for delegated names under NoShadow (c03c_two_level_partial); "
-             "the unrestricted two-level statement is refuted by a kernel-evaluated witness (c03c_two_level_refuted) = known finding. Props/C03B: a name a document's manager resolved from a string is owned by it (resolveOwn_owned) and an owned name is a fixed point of the QualifiedName path (validQ_owned_fixpoint), so it re-enters the manager - as identifier, attribute name, value or datatype of a record being read - without registering a namespace, generating a prefix or adopting a default (c03_resolved_name_reenters_unchanged, in every state of every namespace history). "
+             "the unrestricted two-level statement is refuted by a kernel-evaluated witness (c03c_two_level_refuted) = known finding. Props/C03B: a name a document's manager resolved from a string is owned by it (resolveOwn_owned) and an owned name is a fixed point of the QualifiedName path (validQ_owned_fixpoint), so it re-enters the manager - as identifier, attribute name, value or datatype of a record being read - without registering a namespace, generating a prefix or adopting a default (c03_resolved_name_reenters_unchanged, in every state of every namespace history). Props/C03C: a document built with constructor namespaces is in the state of an empty document after the same add_namespace calls (c03_constructor_is_history / _then_history / _inv), the heap's newDoc holds exactly that manager (c03_newDoc_mgr), a built-in prefix offered for another URI does not displace the built-in (c03_constructor_builtin_clash). "
              "Model tied to the code by op-sequence correspondence after every operation.",
         note=A_COMMON + " Partial: bundle-scope names captured by the bundle's own bindings and default-namespace locals containing ':' "
              "are genuine defects of the pinned code, listed in known_findings.json. add_namespace with an empty prefix is outside the proved domain.",
@@ -191,7 +191,7 @@ CHECKS = {
         text="Lean: text/graph exporters are pure functions of the heap (no way to write; repeatability is functional congruence), the "
              "allocating exporters flattened()/add_record sequences leave every pre-existing container, manager and record cell unchanged "
              "(c13_addRecords_frame, c13_flattened_frame). On the real code: full observation before/after every exporter and option "
-             "combination in random orders, text exports twice and on a twin built by the same calls, RDF graph isomorphism. unified() (Props/C13B): c13_unified_frame / c13_unified_content - every container cell (records and order, identifier index, bundle table, identifier) and every record cell that existed is unchanged after ProvDocument.unified(), whether it succeeds or raises. Namespace managers (Props/C13M, after fix b85a831): c13_unified_mgrs / c13_unifiedBundle_mgrs - no manager cell that existed is written by ProvDocument.unified() / ProvBundle.unified() (scratch bundles, copies, merges, new containers and add_bundle only write managers allocated by the call: invariant High/Keeps through every step); c13_unified_untouched - container cell, resolving manager, parent manager and record cells of every earlier container are the same after as before. Props/C13N: the two side conditions of that theorem (allocated manager cell, allocated parent link) are invariants of every history (WfP, reachAny_wfP), so in every state the public interface can produce unified() leaves every existing container, its manager, its parent manager and every record cell untouched, success or error (c13_unified_untouched_reach). Props/C13R: c13_owned_args_register_nothing - add_attributes (every record constructor, new_record, every factory, every reader's record-building step) returns the namespace manager exactly as it was when all names among its arguments (attribute names, references, qualified-name values, datatypes of literals that stay literals) are owned by the container - bound under their own prefix or in its default namespace -, whether the call succeeds or is refused; names the container resolved from text are owned (Props/C03B), so loading PROV-JSON / PROV-XML registers nothing beyond the prefix block; c13_newRecord_owned_mgrs: on the heap new_record with an owned identifier and owned arguments leaves every namespace manager cell (the container's, its document's, everybody else's) as it was.",
+             "combination in random orders, text exports twice and on a twin built by the same calls, RDF graph isomorphism. unified() (Props/C13B): c13_unified_frame / c13_unified_content - every container cell (records and order, identifier index, bundle table, identifier) and every record cell that existed is unchanged after ProvDocument.unified(), whether it succeeds or raises. Namespace managers (Props/C13M, after fix b85a831): c13_unified_mgrs / c13_unifiedBundle_mgrs - no manager cell that existed is written by ProvDocument.unified() / ProvBundle.unified() (scratch bundles, copies, merges, new containers and add_bundle only write managers allocated by the call: invariant High/Keeps through every step); c13_unified_untouched - container cell, resolving manager, parent manager and record cells of every earlier container are the same after as before. Props/C13N: the two side conditions of that theorem (allocated manager cell, allocated parent link) are invariants of every history (WfP, reachAny_wfP), so in every state the public interface can produce unified() leaves every existing container, its manager, its parent manager and every record cell untouched, success or error (c13_unified_untouched_reach). Props/C13R: c13_owned_args_register_nothing - add_attributes (every record constructor, new_record, every factory, every reader's record-building step) returns the namespace manager exactly as it was when all names among its arguments (attribute names, references, qualified-name values, datatypes of literals that stay literals) are owned by the container - bound under their own prefix or in its default namespace -, whether the call succeeds or is refused; names the container resolved from text are owned (Props/C03B), so loading PROV-JSON / PROV-XML registers nothing beyond the prefix block; c13_newRecord_owned_mgrs: on the heap new_record with an owned identifier and owned arguments leaves every namespace manager cell (the container's, its document's, everybody else's) as it was. Props/C13S: the record phase of the PROV-JSON reader registers nothing in a document - decodeElemAttrs_owned (all names the attribute loop accumulates are owned), c13_json_element_registers_nothing, c13_json_records_register_nothing (every manager cell and every string resolution is the same after the whole record walk, success or refusal).",
         note=A_COMMON + " Repeatability across processes is not claimed.",
         technique="Lean 4 frame proofs (exporters as pure/allocating heap functions) + before/after observation oracle",
         design="§4.C13"),
